@@ -16,7 +16,7 @@ func init() {
 		ID:  "C24",
 		Run: runC24,
 		Explanation: "Decides ONE structural clause of 'the encryption parameters pdfcpu computes are those of the ISO 32000 algorithms': the constants those algorithms fix appear in the code as the standard states them. A self-consistent deviation (51 instead of 50 re-hash rounds on both the writing and the validating side) passes every round-trip test pdfcpu can run against itself and breaks every other reader. " +
-			"(R1 TABLE) the 32-byte padding string (7.6.3.3) byte for byte; Algorithm 2 / 3: the MD5 re-hash loop runs for counter values 0..49 and the RC4 loop for 1..19 (the counter is the XOR operand), both only for revision ≥ 3 — loop ranges are read off the counter φ, its constant start, the +1 step and the constant bound of the loop test, also for range-over-integer loops; revision 2 keys are cut to 5 bytes; the 0xFFFFFFFF suffix is hashed only when metadata is not encrypted; Algorithm 2.A/2.B: validation salt = bytes 32..39, key salt = bytes 40..47 of /O and /U; the inner block is repeated 64 times, at least 64 rounds, continuation test against round − 32; passwords are cut at 127 bytes; /Perms: bytes 9..11 are 'adb', byte 8 is 'T' or 'F'. " +
+			"(R1 TABLE) the 32-byte padding string (7.6.3.3) byte for byte; Algorithm 2 / 3: the MD5 re-hash loop runs for counter values 0..49 and the RC4 loop for 1..19 (the counter is the XOR operand), both only for revision ≥ 3 — loop ranges are read off the counter φ, its constant start, the +1 step and the constant bound of the loop test, also for range-over-integer loops; revision 2 keys are cut to 5 bytes; the 0xFFFFFFFF suffix is hashed only when metadata is not encrypted; Algorithm 2.A/2.B: validation salt = bytes 32..39, key salt = bytes 40..47 of /O and /U; the inner block is repeated 64 times, at least 64 rounds, continuation test against round − 32; passwords are cut at 127 bytes; /Perms: bytes 9..11 are 'adb', byte 8 is 'T' or 'F' (read side), and the block written by writePermissions stores FF at bytes 4..7, 'T'/'F' at 8 and 'adb' at 9..11 as constants. " +
 			"NOT decided: the hash, cipher and big-integer arithmetic (standard library), SASLprep, that the pieces are concatenated in the order the algorithms give, key lengths other than through L/8.",
 		Rules:       []string{"C24.R1 TABLE: constants of ISO 32000 algorithms 2, 3, 4/5, 2.A, 2.B, 8–13 (padding string, round counts, salt offsets, truncations, /Perms markers)"},
 		Assumptions: []string{"crypto/md5, rc4, aes, sha256, sha512 are correct"},
@@ -164,7 +164,8 @@ func comparedConsts(fn *ssa.Function) map[int64]bool {
 
 func runC24(c *Ctx) {
 	p, r := c.P, c.R
-	r.MinInst["C24.R1"] = 12
+	r.MinInst["C24.R1"] = 13
+	checkPermsPlaintext(c)
 	ok := func(fid, construct, pos, why string) { r.OK("C24.R1", fid, construct, pos, why, true) }
 	bad := func(fid, construct, pos, why string) { r.Bad("C24.R1", fid, construct, pos, why) }
 	// ---- padding string
@@ -289,5 +290,74 @@ func runC24(c *Ctx) {
 		} else {
 			ok(w.fid, "constants", p.Pos(fn.Pos()), w.what)
 		}
+	}
+}
+
+// ---------------- round 3 seeds: the /Perms plaintext written by Algorithm 10 ----------------
+
+// constIndexStores: index -> constant byte stored into a []byte at that constant index.
+func constIndexStores(fn *ssa.Function) map[int64][]int64 {
+	out := map[int64][]int64{}
+	eachInstr(fn, func(_ *ssa.BasicBlock, _ int, i ssa.Instruction) {
+		st, ok := i.(*ssa.Store)
+		if !ok {
+			return
+		}
+		ia, ok := st.Addr.(*ssa.IndexAddr)
+		if !ok {
+			return
+		}
+		idx, ok := constInt(ia.Index)
+		if !ok {
+			return
+		}
+		for _, l := range valueLeaves(st.Val) {
+			if k, ok := constInt(l); ok {
+				out[idx] = append(out[idx], k)
+			}
+		}
+	})
+	return out
+}
+
+func checkPermsPlaintext(c *Ctx) {
+	p, r := c.P, c.R
+	fid := "pkg/pdfcpu.writePermissions"
+	fn := p.Func(fid)
+	if fn == nil {
+		r.Bad("C24.R1", fid, "anchor", "", "UNRESOLVED-ANCHOR")
+		return
+	}
+	st := constIndexStores(fn)
+	has := func(idx int64, vals ...int64) bool {
+		got := map[int64]bool{}
+		for _, v := range st[idx] {
+			got[v] = true
+		}
+		for _, v := range vals {
+			if !got[v] {
+				return false
+			}
+		}
+		return len(st[idx]) > 0
+	}
+	var miss []string
+	for idx := int64(4); idx <= 7; idx++ {
+		if !has(idx, 0xFF) {
+			miss = append(miss, fmt.Sprintf("byte %d is not set to 0xFF", idx))
+		}
+	}
+	if !has(8, 'T', 'F') {
+		miss = append(miss, "byte 8 is not 'T' / 'F'")
+	}
+	for i, ch := range []int64{'a', 'd', 'b'} {
+		if !has(int64(9+i), ch) {
+			miss = append(miss, fmt.Sprintf("byte %d is not %q", 9+i, rune(ch)))
+		}
+	}
+	if len(miss) > 0 {
+		r.Bad("C24.R1", fid, "Perms plaintext", p.Pos(fn.Pos()), "Algorithm 10: the 16-byte block encrypted into /Perms is P (bytes 0-3), FF FF FF FF (4-7), 'T'/'F' (8), 'adb' (9-11) — "+strings.Join(miss, "; ")+": pdfcpu's own validation ignores bytes 4-7, so its round trips still pass while other readers see a /Perms entry the standard does not produce")
+	} else {
+		r.OK("C24.R1", fid, "Perms plaintext", p.Pos(fn.Pos()), "bytes 4-7 = FF, byte 8 = 'T'/'F', bytes 9-11 = 'adb' are stored as constants", true)
 	}
 }
